@@ -1,5 +1,5 @@
 SPECIFICATION Spec
-CONSTANTS N = 86400 MaxSteps = 4 InvertStartBySecTruncation = FALSE
+CONSTANTS N = 86400 MaxSteps = 4 InvertStartBySecTruncation = FALSE CaptureAtJoinEpoch = FALSE MaxJoinSteps = 0
 CONSTANT Lons <- LonsAll
 CONSTANT Theta0s <- ThetasAll
 CONSTANT StartSecs <- Secs60
